@@ -6,6 +6,7 @@ from poly import poly, peq, pshow, entails, cmp_constraint, padd, const, canon
 
 META = {
     'level': 'other',
+    'configs': ['gui'],        # the painter lives in the GUI binary: only the mstsc-rs feature build contains it
     'technique': 'unsafe-operation census, path-complete guard entailment (polynomial normal form + Fourier-Motzkin) and interval analysis over rustc MIR',
     'explanation': 'Static analysis of mstsc-rs fast_bitmap_transfer on the MIR of the current tree (binary built with the mstsc-rs feature). '
                    '(R19.1) census of unsafe operations: the painter uses only pointer offset and copy_nonoverlapping on two Vec<u32>, the byte->pixel '
